@@ -32,6 +32,10 @@
       Parser::trim_start_matches (trim_end_matches) itself (C18_trim_single_eq_method).
       With several alternatives it is NOT a fixed chain of trim_*_matches calls (one
       pass over the alternatives is not enough: "a" | "b" on "ba.."), hence the loop.
+    - the write-back [p = p.skip(n)] / [p.skip_back(n)] every form ends with: the macro
+      model's own copies of these two methods are Model.Parser's on byte-valued
+      remainders, rounding included (C18_skip_is_parser_skip, .._skip_back_..,
+      C18_write_back_is_parser_call).
 
     NOT YET PROVED:
     - a single theorem over the token TREE (string | raw | concat!) — the three cases
@@ -41,10 +45,10 @@
     - the chain theorems carry C13's no-wrap hypothesis [fits] for the forward forms
       (the macro model's start_offset is a plain Z); what a wrapping start_offset does
       is C13's finding, not restated here;
-    - [Parser::skip] / [skip_back] of the macro model (skip_m / skip_back_m) are not
-      proved equal to [Parser.step (OSkip n)] / [(OSkipBack n)] in general (rounding
-      case); in every form they are called where no rounding happens (the C18_no_rounding theorems)
-      and the result is proved equal to the Parser method's result directly. *)
+    - where Model.Parser's skip_back reports the [pos -= 1] underflow (PPanic: the
+      remainder starts with a continuation byte and the cut falls inside that run;
+      impossible for a &str, C01) the macro model's skip_back_m has no panic value and
+      stops at 0; C18_skip_back_is_parser_skip_back therefore speaks of the Ok case. *)
 From KV Require Import Base.Prelude Model.Utf8 Model.Literal Model.ParserMethod
   Spec.Search Spec.Literal Spec.ParserMethod Spec.ParserChain
   Proofs.LiteralProofs Proofs.ParserMethodProofs Proofs.ParserChainProofs
@@ -351,6 +355,29 @@ Proof. exact abs_inj. Qed.
 Theorem C18_fits_example : forall s, zlen s < 4294967296 -> fits (Parser.parser_new s).
 Proof. exact fits_new. Qed.
 
+(** the write-back of every form is the Parser call the expansion makes: the macro
+    model's skip_m / skip_back_m are [Parser.step P (OSkip n)] / [(OSkipBack n)], for
+    every n (rounding to a char boundary included), on remainders made of bytes *)
+Theorem C18_skip_is_parser_skip : forall P n, fits P -> Forall is_byte (Parser.p_str P) ->
+  exists Q, Parser.step P (Parser.OSkip n) = Parser.POk Parser.VNone Q /\
+            abs Q = skip_m (abs P) n /\ Parser.p_yls Q = Parser.p_yls P.
+Proof. exact skip_m_is_step. Qed.
+Theorem C18_skip_back_is_parser_skip_back : forall P n Q, Forall is_byte (Parser.p_str P) ->
+  Parser.step P (Parser.OSkipBack n) = Parser.POk Parser.VNone Q ->
+  abs Q = skip_back_m (abs P) n /\ Parser.p_yls Q = Parser.p_yls P.
+Proof. exact skip_back_m_is_step. Qed.
+Theorem C18_write_back_is_parser_call : forall s P r Q,
+  fits_for s P -> Forall is_byte (Parser.p_str P) ->
+  Parser.step P (match s with
+                 | AtStart => Parser.OSkip (zlen (Parser.p_str P) - zlen r)
+                 | AtEnd => Parser.OSkipBack (zlen (Parser.p_str P) - zlen r)
+                 end) = Parser.POk Parser.VNone Q ->
+  abs Q = set_rem s (abs P) r.
+Proof. exact set_rem_is_step. Qed.
+
+Print Assumptions C18_skip_is_parser_skip.
+Print Assumptions C18_skip_back_is_parser_skip_back.
+Print Assumptions C18_write_back_is_parser_call.
 Print Assumptions C18_strip_eq_step_chain.
 Print Assumptions C18_strip_default_step_chain.
 Print Assumptions C18_P_strip_is_step.
